@@ -214,6 +214,11 @@ def gen_op(rng, st):
         return {'op': 'collect'}
     if k < 86 and st.n > c['steps'] // 2:
         return {'op': 'close_record'}
+    if rng.random() < 0.08:
+        # readers accept a path, a file object or a RecordFile; here a RecordFile
+        # that was already used (advanced by some records) is handed to a new reader
+        return {'op': 'shared_handle', 'advance': rng.randrange(0, 7),
+                'read': rng.random() < 0.5}
     if k < 92:
         # another file of the same layout (same grid and counts, other species
         # order / other values) is opened in between
@@ -577,6 +582,47 @@ def _apply(st, op):
                                                 np.asarray(g_).ravel()[:3].tolist(),
                                                 np.asarray(e_).ravel()[:3].tolist()),
                          what='iterator', family='r')
+    elif o == 'shared_handle':
+        from PseudoNetCDF.camxfiles.FortranFileUtil import OpenRecordFile
+        from PseudoNetCDF.camxfiles import Readers
+        try:
+            rf = OpenRecordFile(path)
+            for _ in range(op['advance']):
+                if op.get('read'):
+                    try:
+                        rf.read('i')
+                    except BaseException:
+                        rf.next()
+                else:
+                    rf.next()
+        except BaseException as e:
+            return {'note': 'handle raised ' + type(e).__name__}
+        w.fault('reader_built_on_used_handle')
+        try:
+            cls = getattr(Readers, fmt)
+            r2, _ = _guard(lambda: cls(rf) if fmt == 'uamiv' else cls(rf, spec['ny'], spec['nx']))
+            got = {k: np.array(r2.variables[k][...]) for k in data_keys(r2)}
+            gt = times_of('r', r2, fmt)
+        except Timeout:
+            viol('reader-does-not-terminate', 'reader on a used RecordFile handle', family='r')
+        except BaseException as e:
+            return {'note': 'not accepted: ' + type(e).__name__}
+        m = fresh('m')
+        for dk in ('TSTEP', 'LAY', 'ROW', 'COL'):
+            if dk in m.dimensions and dk in r2.dimensions and \
+                    len(m.dimensions[dk]) != len(r2.dimensions[dk]):
+                viol('readers-disagree', 'record reader built on a RecordFile that had been '
+                     'advanced by %d records: dimension %s is %d, memmap reader %d' % (
+                         op['advance'], dk, len(r2.dimensions[dk]), len(m.dimensions[dk])),
+                     what='dimension-shared-handle', family='r')
+        for k2, a in got.items():
+            if k2 in m.variables.keys() and not squeeze_eq(a, np.array(m.variables[k2][...])):
+                viol('readers-disagree', 'record reader built on a used RecordFile handle: %s '
+                     'differs from the memmap reader' % k2, what='data-shared-handle', family='r')
+        if gt != times_of('m', m, fmt):
+            viol('readers-disagree', 'record reader built on a used RecordFile handle: time '
+                 'flags %s, memmap %s' % (gt, times_of('m', m, fmt)),
+                 what='tflag-shared-handle', family='r')
     elif o == 'collect':
         seams.GC.collect(2)
         w.fault('gc_between')
